@@ -199,4 +199,230 @@ theorem completeFG_sound_partial (thr : ℚ) (roots : List CQ) (seed : List Bool
   push_cast; rfl
 
 end
+
+/-! ### `factorsFG` in closed form, and `completeFG` end to end without side hypotheses -/
+section Explicit
+open ComplexConjugate
+
+theorem mapM_some {α β : Type} (f : α → Option β) (g : α → β) (l : List α)
+    (h : ∀ a ∈ l, f a = some (g a)) : l.mapM f = some (l.map g) := by
+  induction l with
+  | nil => simp
+  | cons a as ih =>
+    rw [List.mapM_cons, h a (by simp), ih fun b hb => h b (by simp [hb])]; simp
+
+theorem mapM_none {α β : Type} (f : α → Option β) (l : List α)
+    (h : ∃ a ∈ l, f a = none) : l.mapM f = none := by
+  induction l with
+  | nil => simp at h
+  | cons a as ih =>
+    rw [List.mapM_cons]
+    cases hfa : f a with
+    | none => simp
+    | some b =>
+      obtain ⟨x, hx, hfx⟩ := h
+      rcases List.mem_cons.mp hx with rfl | hx
+      · rw [hfa] at hfx; cases hfx
+      · rw [ih ⟨x, hx, hfx⟩]; simp
+
+/-- the seed bit: the root or its reciprocal -/
+noncomputable def flipC (b : Bool) (a : ℂ) : ℂ := if b then a⁻¹ else a
+
+/-- factor `i` of the complex block -/
+def facI (im : List CQ) (seed : List Bool) (i : ℕ) : List ℚ :=
+  let r := if seed.getD i false then cqInv (im.getD i (0, 0)) else im.getD i (0, 0)
+  [r.1 * r.1 + r.2 * r.2, -2 * r.1, 1]
+
+/-- factor `i` of the real block (bit `i + #complex`) -/
+def facR (im : List CQ) (re : List ℚ) (seed : List Bool) (i : ℕ) : List ℚ :=
+  [-(if seed.getD (i + im.length) false then 1 / re.getD i 0 else re.getD i 0), 1]
+
+/-- the selected roots: every complex root with its conjugate, then the real ones, each
+    replaced by its reciprocal where the seed bit is set (`seed = []`: nothing flipped) -/
+noncomputable def selRoots (im : List CQ) (re : List ℚ) (seed : List Bool) : List ℂ :=
+  ((List.range im.length).flatMap fun i =>
+      [flipC (seed.getD i false) (toC (im.getD i (0, 0))),
+        conj (flipC (seed.getD i false) (toC (im.getD i (0, 0))))]) ++
+    (List.range re.length).map fun i =>
+      flipC (seed.getD (i + im.length) false) ((re.getD i 0 : ℚ) : ℂ)
+
+/-- every needed bit present: the factor list in closed form -/
+theorem factorsFG_eq (im : List CQ) (re : List ℚ) (seed : List Bool)
+    (hseed : im.length + re.length ≤ seed.length) :
+    factorsFG im re seed
+      = some ((List.range im.length).map (facI im seed) ++
+          (List.range re.length).map (facR im re seed)) := by
+  unfold factorsFG
+  rw [mapM_some (g := facI im seed), Option.bind_eq_bind, Option.bind_some,
+    mapM_some (g := facR im re seed)]
+  · simp
+  · intro i hi
+    have hi' : i + im.length < seed.length := by have := List.mem_range.mp hi; omega
+    simp [bitAt, facR, List.getD_eq_getElem?_getD, List.getElem?_eq_getElem hi']
+  · intro i hi
+    have hi' : i < seed.length := by have := List.mem_range.mp hi; omega
+    simp [bitAt, facI, List.getD_eq_getElem?_getD, List.getElem?_eq_getElem hi']
+
+/-- a missing bit is the code's `CompletionError` for a short seed -/
+theorem factorsFG_none (im : List CQ) (re : List ℚ) (seed : List Bool)
+    (hseed : seed.length < im.length + re.length) : factorsFG im re seed = none := by
+  unfold factorsFG
+  by_cases h1 : seed.length < im.length
+  · rw [mapM_none]
+    · simp
+    · exact ⟨seed.length, List.mem_range.mpr h1, by simp [bitAt]⟩
+  · rw [mapM_some (g := facI im seed), Option.bind_eq_bind, Option.bind_some, mapM_none]
+    · simp
+    · refine ⟨seed.length - im.length, List.mem_range.mpr (by omega), ?_⟩
+      have : seed.length - im.length + im.length = seed.length := by omega
+      simp [bitAt, this]
+    · intro i hi
+      have hi' : i < seed.length := by have := List.mem_range.mp hi; omega
+      simp [bitAt, facI, List.getD_eq_getElem?_getD, List.getElem?_eq_getElem hi']
+
+theorem factorsFG_some_iff (im : List CQ) (re : List ℚ) (seed : List Bool) :
+    (factorsFG im re seed).isSome ↔ im.length + re.length ≤ seed.length := by
+  constructor
+  · intro h
+    by_contra hc
+    rw [factorsFG_none im re seed (by omega)] at h
+    simp at h
+  · intro h; rw [factorsFG_eq im re seed h]; simp
+
+theorem Gpoly_append {K : Type} [Field K] (a b : List K) :
+    Gpoly (a ++ b) = Gpoly a * Gpoly b := by simp [Gpoly]
+
+theorem recipProd_append {K : Type} [Field K] (a b : List K) :
+    recipProd (a ++ b) = recipProd a * recipProd b := by simp [recipProd]
+
+theorem toC_flip (b : Bool) (r : CQ) :
+    toC (if b then cqInv r else r) = flipC b (toC r) := by
+  cases b <;> simp [flipC, toC_cqInv]
+
+theorem toPolyR_facI (im : List CQ) (seed : List Bool) (i : ℕ) :
+    toPolyR (facI im seed i)
+      = (X - C (flipC (seed.getD i false) (toC (im.getD i (0, 0))))) *
+        (X - C (conj (flipC (seed.getD i false) (toC (im.getD i (0, 0)))))) := by
+  unfold facI
+  rw [← toC_flip]
+  exact toPolyR_cplxFactor _
+
+theorem toPolyR_facR (im : List CQ) (re : List ℚ) (seed : List Bool) (i : ℕ) :
+    toPolyR (facR im re seed i)
+      = X - C (flipC (seed.getD (i + im.length) false) ((re.getD i 0 : ℚ) : ℂ)) := by
+  unfold facR
+  rw [toPolyR_realFactor]
+  cases seed.getD (i + im.length) false <;> simp [flipC]
+
+/-- the factor list denotes `∏ (z - s)` over the selected roots -/
+theorem factors_den (im : List CQ) (re : List ℚ) (seed : List Bool) :
+    (((List.range im.length).map (facI im seed) ++
+        (List.range re.length).map (facR im re seed)).map toPolyR).prod
+      = Gpoly (selRoots im re seed) := by
+  have hI : ∀ l : List ℕ, ((l.map (facI im seed)).map toPolyR).prod
+      = Gpoly (l.flatMap fun i =>
+          [flipC (seed.getD i false) (toC (im.getD i (0, 0))),
+            conj (flipC (seed.getD i false) (toC (im.getD i (0, 0))))]) := by
+    intro l
+    induction l with
+    | nil => simp [Gpoly]
+    | cons i l ih =>
+      rw [List.map_cons, List.map_cons, List.prod_cons, ih, List.flatMap_cons, Gpoly_append,
+        toPolyR_facI]
+      simp [Gpoly]
+  have hR : ∀ l : List ℕ, ((l.map (facR im re seed)).map toPolyR).prod
+      = Gpoly (l.map fun i =>
+          flipC (seed.getD (i + im.length) false) ((re.getD i 0 : ℚ) : ℂ)) := by
+    intro l
+    induction l with
+    | nil => simp [Gpoly]
+    | cons i l ih =>
+      rw [List.map_cons, List.map_cons, List.prod_cons, ih, toPolyR_facR]
+      simp [Gpoly]
+  rw [List.map_append, List.prod_append, hI, hR, selRoots, Gpoly_append]
+
+theorem pair_flip (b : Bool) (a : ℂ) :
+    (X - C (flipC b a)) * (X - C (flipC b a)⁻¹) = (X - C a) * (X - C a⁻¹) := by
+  cases b
+  · simp [flipC]
+  · simp only [flipC, if_true, inv_inv]; ring
+
+theorem recipProd_cons' (x : ℂ) (xs : List ℂ) :
+    recipProd (x :: xs) = (X - C x) * (X - C x⁻¹) * recipProd xs := by simp [recipProd]
+
+theorem recipProd_flatMap_congr (l : List ℕ) (f f0 : ℕ → List ℂ)
+    (hh : ∀ i, recipProd (f i) = recipProd (f0 i)) :
+    recipProd (l.flatMap f) = recipProd (l.flatMap f0) := by
+  induction l with
+  | nil => rfl
+  | cons i l ih => simp only [List.flatMap_cons, recipProd_append, ih, hh]
+
+theorem recipProd_map_congr (l : List ℕ) (a a0 : ℕ → ℂ)
+    (hh : ∀ i, (X - C (a i)) * (X - C (a i)⁻¹) = (X - C (a0 i)) * (X - C (a0 i)⁻¹)) :
+    recipProd (l.map a) = recipProd (l.map a0) := by
+  induction l with
+  | nil => rfl
+  | cons i l ih => simp only [List.map_cons, recipProd_cons', ih, hh]
+
+theorem pair2_flip (b : Bool) (a : ℂ) :
+    recipProd [flipC b a, conj (flipC b a)] = recipProd [a, conj a] := by
+  cases b
+  · simp [flipC]
+  · simp only [recipProd_cons', flipC, if_true, map_inv₀, inv_inv]
+    ring
+
+theorem flipC_false (a : ℂ) : flipC false a = a := by simp [flipC]
+
+/-- the specification does not depend on the seed -/
+theorem recipProd_selRoots (im : List CQ) (re : List ℚ) (seed : List Bool) :
+    recipProd (selRoots im re seed) = recipProd (selRoots im re []) := by
+  unfold selRoots
+  rw [recipProd_append, recipProd_append]
+  congr 1
+  · apply recipProd_flatMap_congr
+    intro i
+    rw [List.getD_nil, flipC_false, pair2_flip]
+  · apply recipProd_map_congr
+    intro i
+    rw [List.getD_nil, flipC_false, pair_flip]
+
+/-- **`completeFG` end to end, for every seed of sufficient length**: `g` is `∏ (z - s)` over
+    the selected roots and, if `1 - F F~ = w^{-2 deg} · norm · ∏ (z - s)(z - 1/s)` over the
+    UNFLIPPED inside roots (`selRoots … []`), then `ratio · g · grev` is that polynomial:
+    `G = sqrt(ratio) · g` satisfies `F F~ + G G~ = 1`. -/
+theorem completeFG_sound (thr : ℚ) (roots : List CQ) (seed : List Bool) (norm : ℚ)
+    (g : List ℚ) (ratio : ℚ) (h : completeFG thr roots seed norm = some (g, ratio)) :
+    (classifyRoots thr roots).1.length + (classifyRoots thr roots).2.length ≤ seed.length ∧
+    toPolyR g = Gpoly (selRoots (classifyRoots thr roots).1 (classifyRoots thr roots).2 seed) ∧
+    C (ratio : ℂ) * (toPolyR g *
+        Grev (selRoots (classifyRoots thr roots).1 (classifyRoots thr roots).2 seed))
+      = C (norm : ℂ) *
+        recipProd (selRoots (classifyRoots thr roots).1 (classifyRoots thr roots).2 []) := by
+  obtain ⟨fs, hf, rfl, h0, rfl⟩ := completeFG_eq _ _ _ _ _ _ h
+  have hseed := (factorsFG_some_iff _ _ _).mp (by rw [hf]; rfl)
+  rw [factorsFG_eq _ _ _ hseed] at hf
+  obtain rfl := Option.some.inj hf
+  set S := selRoots (classifyRoots thr roots).1 (classifyRoots thr roots).2 seed with hSdef
+  have hg : toPolyR (prodFactors ((List.range (classifyRoots thr roots).1.length).map
+      (facI (classifyRoots thr roots).1 seed) ++
+      (List.range (classifyRoots thr roots).2.length).map
+        (facR (classifyRoots thr roots).1 (classifyRoots thr roots).2 seed))) = Gpoly S := by
+    rw [toPolyR_prodFactors, factors_den]
+  have hc := coeff_zero_toPolyR (prodFactors ((List.range (classifyRoots thr roots).1.length).map
+      (facI (classifyRoots thr roots).1 seed) ++
+      (List.range (classifyRoots thr roots).2.length).map
+        (facR (classifyRoots thr roots).1 (classifyRoots thr roots).2 seed)))
+  rw [hg, Gpoly_coeff_zero] at hc
+  have hS : ∀ s ∈ S, s ≠ 0 := by
+    intro s hs hs0
+    apply h0
+    have : (S.map fun s => -s).prod = 0 :=
+      List.prod_eq_zero (List.mem_map.mpr ⟨s, hs, by simp [hs0]⟩)
+    rw [this] at hc
+    exact_mod_cast hc.symm
+  refine ⟨hseed, hg, ?_⟩
+  have := fg_normalised S hS (norm : ℂ)
+  rw [← recipProd_selRoots, ← this, hg, Gpoly_coeff_zero, hc, Rat.cast_div]
+
+end Explicit
 end QSP
